@@ -149,6 +149,15 @@ Definition eval09 (e : sexp) : verdict :=
                v_model := Sym "no-crash"; v_tag := "broken/" ++ mut ++ "/" ++ real |}
         | None => bad_line
         end
+      else if k =? "undef" then
+        (* a call whose argument has no type (undefined identifier): derive/find.go defers it,
+           generatePackage must end with "cannot generate" *)
+        match coarse cls with
+        | Some real =>
+            {| v_known := true; v_model_ok := real =? "err"; v_spec_ok := real =? "err"; v_guard := true;
+               v_model := Sym "err"; v_tag := "undefined-argument/" ++ real |}
+        | None => bad_line
+        end
       else bad_line
   | _ => bad_line
   end.
